@@ -24,6 +24,8 @@ func main() {
 		var swg sync.WaitGroup
 		swg.Add(1)
 		go func() { defer swg.Done(); slowListing(r) }()
+		swg.Add(1)
+		go func() { defer swg.Done(); retainedKeyObject(r) }()
 		defer swg.Wait()
 		windows := []int{sh.WPast, sh.WJustExpired, sh.WCurrent, sh.WCurrent, sh.WFuture, sh.WZero, sh.WForever, sh.WHugeVA, sh.WSoon, sh.WJustLapsed}
 		nt := func(e *sh.Engine, _ sh.Stats, st sh.Stats) bool { return st.Purged+st.OrphansDropped > 0 }
